@@ -69,7 +69,7 @@ def _orders(rng, df, rotations, all_orders=False):
 
 def _labels(rng, n, style):
     if style == 0:
-        return rng.permutation(n) * 3 + 7
+        return rng.permutation(n) if rng.random() < 0.5 else rng.permutation(n) * 3 + 7
     if style == 1:
         return np.array([f"r{rng.integers(0, 10**6)}" for _ in range(n)], dtype=object)
     if style == 2:
@@ -102,6 +102,14 @@ def run_item(item):
     for li, (name, perm) in enumerate(_orders(rng, df, item["rotations"], item.get("all_orders", False))):
         dfp = df.iloc[perm].copy()
         dfp.index = _labels(rng, len(df), li % 4)
+        if li % 2 == 1:
+            # the same values in dtypes that need the (lossless, announced) conversion to the internal type
+            dfp["alter"] = dfp["alter"].astype(float)
+            dfp["weiblich"] = dfp["weiblich"].astype(np.int64)
+            dfp["geburtsjahr"] = dfp["geburtsjahr"].astype(np.int32)
+            dfp["wohnfläche_hh"] = dfp["wohnfläche_hh"].astype(np.float32)
+            dfp["mietstufe"] = dfp["mietstufe"].astype(float)
+            res["runs_with_converted_columns"] = res.get("runs_with_converted_columns", 0) + 1
         try:
             tr, nodes2, _, _, _ = env.trace(dfp, params, functions)
         except Exception as e:  # noqa: BLE001
@@ -174,6 +182,7 @@ def summarize(results, tier, seed):
              "distinct by (population digest, order name)",
         dates=sorted({r["date"] for r in ok}),
         populations=len({r["pop"] for r in ok}),
+        runs_with_columns_needing_conversion=sum(r.get("runs_with_converted_columns", 0) for r in ok),
         populations_with_all_row_orders=[(r["persons"], r["runs"]) for r in ok if r["_item"].get("all_orders")],
         node_comparisons=compared,
         float_sum_noise_events=noise,
